@@ -296,4 +296,48 @@ WITNESSES = [
             c = -c
         if c == 0:
             continue"""),
+    # for/else with try/except instead of any(..)
+    dict(id="c01-ok-rules-try-for-else", prop="C01", file="rules.py", expect=None,
+         old="""            if any(obj.name in self._forbidden_blocks
+                   and obj.space in self._forbidden_blocks[obj.name]
+                   for obj in term.objects):
+                continue
+            res += term""",
+         new="""            for obj in term.objects:
+                try:
+                    blocks = self._forbidden_blocks[obj.name]
+                except KeyError:
+                    continue
+                if obj.space in blocks:
+                    break
+            else:
+                res += term"""),
+    # early exit when the contraction vanishes (zero needs no rules)
+    dict(id="c01-ok-wicks-early-zero", prop="C01", file=F, expect=None,
+         old="            result = _contract_operator_string(op_string)\n",
+         new="            result = _contract_operator_string(op_string)\n            if result is S.Zero:\n                return S.Zero\n"),
+    # starred unpacking and a while loop
+    dict(id="c01-ok-first-rest-while", prop="C01", file=F, expect=None,
+         old="    result = []\n    for i in range(1, len(op_string)):\n        c = _contraction(op_string[0], op_string[i])",
+         new="    result = []\n    first, *rest = op_string\n    i = 0\n    while i < len(rest):\n        i += 1\n"
+             "        c = _contraction(first, rest[i - 1])"),
+    # the Fd/F row tested with `and`: (occ, general) now takes the projector branch, delta_pq * [q occupied], which has
+    # the same value because p is occupied
+    dict(id="c01-ok-table-redundant-projector", prop="C01", file=F, expect=None,
+         old='        elif space_p == "o" or space_q == "o":\n            return KroneckerDelta(p_idx, q_idx)',
+         new='        elif space_p == "o" and space_q == "o":\n            return KroneckerDelta(p_idx, q_idx)'),
+    dict(id="c01-is-empty-never", prop="C01", file="rules.py", expect="R01d",
+         old="return not bool(self._forbidden_blocks)", new="return False"),
+    # a single operator handled by the general branch: the contraction of a string of odd length vanishes (prefilter),
+    # so the value is still zero
+    dict(id="c01-ok-wicks-single-op-general-branch", prop="C01", file=F, expect=None,
+         old="        elif n == 1:  # a single operator\n            return S.Zero\n", new=""),
+    dict(id="c01-wicks-bare-operator", prop="C01", file=F, expect="R01d",
+         old="    if isinstance(expr, (NO, FermionicOperator)):\n        return S.Zero\n",
+         new="    if isinstance(expr, NO):\n        return S.Zero\n"),
+    dict(id="c01-prefilter-skips-first", prop="C01", file=F, expect=["R01c", "R01e"],
+         old="    for op in op_string:\n        if isinstance(op, Fd):", new="    for op in op_string[1:]:\n        if isinstance(op, Fd):"),
+    dict(id="c01-partition-swapped", prop="C01", file=F, expect=["R01d", "R01e"],
+         old="            if factor.is_commutative:\n                c_part.append(factor)",
+         new="            if not factor.is_commutative:\n                c_part.append(factor)"),
 ]
